@@ -98,7 +98,7 @@ pub fn constant_template(tx: &tir::Tx, w: &crate::gen::sem::World, pp: &PP) -> R
     .map_err(|p| format!("panic: {}", p.message))?
 }
 
-pub fn check_payload(ctx: &mut Ctx, payload: &[u8], hash: &[u8], pp: &PP, mainnet: bool, detail: &dyn Fn(serde_json::Value) -> serde_json::Value) -> Option<txview::TxView> {
+pub fn check_payload(ctx: &mut Ctx, payload: &[u8], hash: &[u8], pp: &PP, mainnet: bool, same_utxo_in_two_blocks: bool, detail: &dyn Fn(serde_json::Value) -> serde_json::Value) -> Option<txview::TxView> {
     // a standard decoder accepts
     let pallas_ok = crate::panics::catch(|| tx3_cardano::pallas::ledger::traverse::MultiEraTx::decode(payload).map(|_| ()).map_err(|e| e.to_string()));
     match pallas_ok {
@@ -165,7 +165,9 @@ pub fn check_payload(ctx: &mut Ctx, payload: &[u8], hash: &[u8], pp: &PP, mainne
         (None, None) => {}
     }
     for d in &f.duplicates {
-        ctx.violation(format!("duplicate:{}", crate::props::c01::strip_indices(d)), detail(json!({"field": d})));
+        // the one cause that has a name of its own: the template itself holds one UTxO in two input blocks
+        let cause = if d == "inputs" && same_utxo_in_two_blocks { ":same-utxo-in-two-input-blocks" } else { "" };
+        ctx.violation(format!("duplicate:{}{cause}", crate::props::c01::strip_indices(d)), detail(json!({"field": d})));
     }
     for e in &f.empties {
         ctx.violation(format!("empty:{}", crate::props::c01::strip_indices(e)), detail(json!({"field": e})));
@@ -184,7 +186,7 @@ pub fn check_payload(ctx: &mut Ctx, payload: &[u8], hash: &[u8], pp: &PP, mainne
 
 impl C10 {
     fn gen_cfg() -> Cfg {
-        Cfg { cardano_pct: 60, mint_pct: 60, redeemer_focus: false, ..Default::default() }
+        Cfg { cardano_pct: 60, mint_pct: 60, redeemer_focus: false, share_utxo_between_blocks: true, ..Default::default() }
     }
 }
 
@@ -260,7 +262,20 @@ impl Property for C10 {
             };
             ctx.eval();
             let detail = |what: serde_json::Value| json!({"source": src, "tx": txd.name, "world": world_json(&w), "payload": hex::encode(&c1.payload), "observed": what, "phase": phase});
-            let Some(v) = check_payload(ctx, &c1.payload, &c1.hash, &pp2, pp2.mainnet, &detail) else { continue };
+            let shared = {
+                let mut seen = std::collections::BTreeSet::new();
+                let mut dup = false;
+                for us in w.inputs.values() {
+                    for u in us {
+                        dup |= !seen.insert((u.txid.clone(), u.index));
+                    }
+                }
+                if dup {
+                    ctx.count("world/same-utxo-in-two-input-blocks");
+                }
+                dup
+            };
+            let Some(v) = check_payload(ctx, &c1.payload, &c1.hash, &pp2, pp2.mainnet, shared, &detail) else { continue };
             // reproducibility in one process: same instance again, fresh instance, a clone of the template
             let again = crate::panics::catch(|| compiler.compile(&t));
             let mut fresh_compiler = env::compiler(&pp2);
